@@ -9,8 +9,9 @@
 (* virtual time, quiescence.                                                *)
 EXTENDS RawSock, TraceLib
 
-VARIABLES l, res, got
-tvars == <<l, res, got>>
+VARIABLES l, res, got,
+          pend     \* Thread -> the message of a Send call issued concurrently with others (its first step has not happened yet), or NULL
+tvars == <<l, res, got, pend>>
 allvars == <<vars, tvars>>
 e == Log[l]
 
@@ -23,7 +24,7 @@ Cooked == Log[1].cooked
 
 TInit ==
   /\ InitRegs /\ l = 2 /\ Log[1].k = "reset" /\ Log[1].eng = Proto /\ Init
-  /\ res = [t \in Thread |-> "none"] /\ got = [t \in Thread |-> NULL]
+  /\ res = [t \in Thread |-> "none"] /\ got = [t \in Thread |-> NULL] /\ pend = [t \in Thread |-> NULL]
 
 Reset(c) ==
   /\ c.eng = Proto
@@ -33,12 +34,13 @@ Reset(c) ==
   /\ recvQ' = <<>> /\ rxHold' = [p \in Pipe |-> NULL]
   /\ call' = [t \in Thread |-> NULL]
   /\ accepted' = <<>> /\ handed' = <<>> /\ delivered' = <<>> /\ arrivedOK' = <<>>
-  /\ res' = [t \in Thread |-> "none"] /\ got' = [t \in Thread |-> NULL]
+  /\ res' = [t \in Thread |-> "none"] /\ got' = [t \in Thread |-> NULL] /\ pend' = [t \in Thread |-> NULL]
 
 AtNow == e.t = now
 NoDeadlineBy(t) == \A th \in Thread : (call[th] # NULL /\ call[th].due >= 0) => call[th].due > t
 Ignored == {"accept", "listen", "lclose", "hook", "hookret", "pclose", "drop", "mkpipe", "pdrop"}
-UNCH_T == UNCHANGED <<res, got>>
+UNCH_T == UNCHANGED <<res, got, pend>>
+NoPend == \A t \in Thread : pend[t] = NULL
 
 \* which pipe did the delivered message arrive on (for the origin reported by raw BUS / REP / RESPONDENT)
 ArrivedPipe(tag) == LET i == CHOOSE j \in 1..Len(arrivedOK) : arrivedOK[j][1] = tag IN arrivedOK[i][2]
@@ -52,23 +54,28 @@ Line ==
      [] e.k = "census" -> e.n = 0 /\ UNCHANGED vars /\ UNCH_T
      \* C10: after everything was closed and every timer ran out no pipe id is reserved, no pipe listed
      [] e.k = "final" -> e.ids = 0 /\ e.listed = 0 /\ UNCHANGED vars /\ UNCH_T
-     [] e.k = "q" -> AtNow /\ ~CanInternal /\ UNCHANGED vars /\ UNCH_T
+     [] e.k = "q" -> AtNow /\ ~CanInternal /\ NoPend /\ UNCHANGED vars /\ UNCH_T
      [] e.k = "adv" ->
-          /\ e.t >= now /\ NoDeadlineBy(e.t) /\ ~CanInternal /\ now' = e.t
+          /\ e.t >= now /\ NoDeadlineBy(e.t) /\ ~CanInternal /\ NoPend /\ now' = e.t
           /\ UNCHANGED <<opt, sockVars, sendVars, recvVars, call, histVars>> /\ UNCH_T
      [] e.k = "call" ->
           /\ AtNow
           /\ CASE e.op = "send" ->
                     \E r \in {"ok", "wait", "ErrClosed", "ErrProtoOp", "ErrNoPeers"} :
                       /\ SendCall(e.th, [tag |-> e.tag, ok |-> e.ok, to |-> N(e.to), skip |-> N(e.skip), h |-> e.h], r)
-                      /\ res' = [res EXCEPT ![e.th] = IF r = "wait" THEN "none" ELSE r] /\ UNCHANGED got
+                      /\ res' = [res EXCEPT ![e.th] = IF r = "wait" THEN "none" ELSE r] /\ UNCHANGED <<got, pend>>
                [] e.op = "recv" ->
                     \E r \in {"wait", "ErrProtoOp"} :
-                      RecvCall(e.th, r) /\ res' = [res EXCEPT ![e.th] = IF r = "wait" THEN "none" ELSE r] /\ UNCHANGED got
-               [] e.op = "sclose" -> \E r \in {"ok", "ErrClosed"} : SockClose(r) /\ res' = [res EXCEPT ![e.th] = r] /\ UNCHANGED got
+                      RecvCall(e.th, r) /\ res' = [res EXCEPT ![e.th] = IF r = "wait" THEN "none" ELSE r] /\ UNCHANGED <<got, pend>>
+               [] e.op = "sclose" -> \E r \in {"ok", "ErrClosed"} : SockClose(r) /\ res' = [res EXCEPT ![e.th] = r] /\ UNCHANGED <<got, pend>>
                [] OTHER -> UNCHANGED vars /\ UNCH_T
+     \* a Send issued at the same moment as others: only the intent is known here; its first step (SendCall) is internal
+     [] e.k = "callc" ->
+          /\ AtNow /\ call[e.th] = NULL /\ pend[e.th] = NULL
+          /\ pend' = [pend EXCEPT ![e.th] = [tag |-> e.tag, ok |-> e.ok, to |-> N(e.to), skip |-> N(e.skip), h |-> e.h]]
+          /\ UNCHANGED <<vars, res, got>>
      [] e.k = "ret" ->
-          /\ AtNow /\ call[e.th] = NULL /\ res[e.th] = e.r
+          /\ AtNow /\ call[e.th] = NULL /\ pend[e.th] = NULL /\ res[e.th] = e.r
           /\ (e.op = "recv" /\ e.r = "ok") =>
                /\ got[e.th] = e.tag
                \* header handed up: none by the cooked wrappers; raw: protocol specific
@@ -77,7 +84,7 @@ Line ==
                /\ (~Cooked /\ Proto \in {"xrep", "xrespondent"}) => (e.hl >= 8 /\ N(e.from) = ArrivedPipe(e.tag))
                /\ (~Cooked /\ Proto \in {"xreq", "xsurveyor"}) => e.hl = 4
                /\ (~Cooked /\ Proto \in {"xpair", "xpull", "xsub"}) => e.hl = 0
-          /\ res' = [res EXCEPT ![e.th] = "none"] /\ UNCHANGED <<vars, got>>
+          /\ res' = [res EXCEPT ![e.th] = "none"] /\ UNCHANGED <<vars, got, pend>>
      [] e.k = "padd" ->
           \* the protocol is being told of the pipe; its verdict is a function of its state
           AtNow /\ (\E ok \in BOOLEAN : AddPipe(e.p, ok)) /\ UNCH_T
@@ -104,10 +111,13 @@ Silent ==
   /\ l <= NLines /\ UNCHANGED l
   /\ \/ \E p \in Pipe : (SenderTake(p) \/ Requeue(p) \/ Push(p) \/ Abandon(p)) /\ UNCH_T
      \/ Schedule /\ UNCH_T
-     \/ \E t \in Thread : \E r \in {"ok", "ErrClosed", "ErrNoPeers", "ErrSendTimeout"} : SendDone(t, r) /\ res' = [res EXCEPT ![t] = r] /\ UNCHANGED got
+     \/ \E t \in Thread : \E r \in {"ok", "wait", "ErrClosed", "ErrProtoOp", "ErrNoPeers"} :
+          /\ pend[t] # NULL /\ SendCall(t, pend[t], r)
+          /\ res' = [res EXCEPT ![t] = IF r = "wait" THEN "none" ELSE r] /\ pend' = [pend EXCEPT ![t] = NULL] /\ UNCHANGED got
+     \/ \E t \in Thread : \E r \in {"ok", "ErrClosed", "ErrNoPeers", "ErrSendTimeout"} : SendDone(t, r) /\ res' = [res EXCEPT ![t] = r] /\ UNCHANGED <<got, pend>>
      \/ \E t \in Thread : /\ recvQ # <<>> /\ RecvTake(t, Head(recvQ))
-                          /\ res' = [res EXCEPT ![t] = "ok"] /\ got' = [got EXCEPT ![t] = Head(recvQ)]
-     \/ \E t \in Thread : \E r \in {"ErrClosed", "ErrRecvTimeout"} : RecvFail(t, r) /\ res' = [res EXCEPT ![t] = r] /\ UNCHANGED got
+                          /\ res' = [res EXCEPT ![t] = "ok"] /\ got' = [got EXCEPT ![t] = Head(recvQ)] /\ UNCHANGED pend
+     \/ \E t \in Thread : \E r \in {"ErrClosed", "ErrRecvTimeout"} : RecvFail(t, r) /\ res' = [res EXCEPT ![t] = r] /\ UNCHANGED <<got, pend>>
      \/ \E t \in Thread :
           /\ call[t] # NULL /\ call[t].due > now /\ call[t].due <= e.t
           /\ \A u \in Thread : (call[u] # NULL /\ call[u].due >= 0 /\ call[u].due > now) => call[t].due <= call[u].due
